@@ -11,39 +11,50 @@ RULE = (
     "operations (begin, insert v, select, commit, rollback) on a file SQLite database, pool_size 1-2, run through "
     "Engine/Connection on pysqlite AND AsyncEngine/AsyncConnection on aiosqlite; for the asyncio run a real "
     "Task.cancel() is delivered at EVERY suspension of the user task (enumerated by a stepping awaitable that drives "
-    "the program coroutine), one position per case, plus seeded double cancellations. Compared with the Coq model: "
-    "block outcomes, pool.checkedout() before/after gc, user-visible results, labelled suspension trace, SQL "
-    "statements seen by SQLite (trace callback), committed rows, in_transaction of every DBAPI connection, idle pool "
-    "records, checkout/return/warning counters. Oracle-only families: savepoints, engine.begin(), conn.begin() "
-    "context managers and AsyncSession programs (sync vs async results + cancellation at every suspension and at "
-    "every await_ call while a shielded close is running). non-trivial = a cancellation is delivered, or the "
-    "program writes"
+    "the program coroutine), one position per case, the cancelled driver request either left queued (aiosqlite's real "
+    "behaviour) or dropped before it reaches the connection thread (what other drivers may do); plus seeded double "
+    "cancellations. Compared with the Coq model: block outcomes, pool.checkedout() before/after gc, user-visible "
+    "results, labelled suspension trace, SQL statements seen by SQLite (trace callback), committed rows, "
+    "in_transaction of every DBAPI connection, idle pool records, checkout/return/warning counters. Oracle-only "
+    "families: savepoints, engine.begin(), conn.begin() context managers and AsyncSession programs (sync vs async "
+    "results + cancellation at sampled/all suspensions and at every await_ call made by a shielded inner task). "
+    "non-trivial = a cancellation is delivered, or the program writes"
 )
 TRUSTED = [
     "hand-written Gallina transcription of greenlet_spawn/await_, the asyncio DBAPI adapter, _finalize_fairy and the "
-    "Connection/RootTransaction paths listed in coq/engine/AsyncConn.v (pinned normalised source + behavioural "
-    "correspondence on every run)",
+    "Connection/RootTransaction paths listed in coq/engine/AsyncConn.v (pinned normalised source of 47 functions + "
+    "behavioural correspondence on every run)",
     "the greenlet C extension (switch/throw resume the continuation) and the asyncio event loop (a cancellation is "
     "delivered at a suspension point of the task; a shielded inner task runs to completion)",
-    "aiosqlite: a request already queued on the connection thread still executes after its future is cancelled",
+    "the driver model io_step (aiosqlite: one FIFO request queue per connection; a queued request still executes "
+    "after its future was cancelled) - validated against real aiosqlite on every run",
 ]
 ASSUMPTIONS = [
-    "one Connection checked out at a time per engine in the modelled programs; no pool-wide invalidation, no recycle",
+    "one Connection checked out at a time per engine in the modelled programs; no pool-wide invalidation, no recycle, "
+    "pool_size >= 1",
     "the documented SQLite transaction recipe is installed (connect: isolation_level=None, begin: BEGIN)",
+    "at most one cancellation per case in the safety theorems",
 ]
 LEVEL_TEXT = (
-    "Coq proof: (1) greenlet_spawn is the identity on resumption trees (so the asyncio API performs the same DBAPI "
-    "calls in the same order with the same results/exceptions as the sync API, for every program and driver oracle); "
-    "(2) for every program, every single cancellation position and both 'request took effect / did not' outcomes the "
-    "modelled life cycle ends with the record back in the pool exactly once or invalidated+terminated, no open "
-    "transaction on any connection, accounting exact, and a later checkout succeeds. Tie: source pin + correspondence "
-    "on real cancellations at every suspension."
+    "Coq proof (closed under the global context): (1) greenlet_spawn is the identity on resumption trees, hence for "
+    "EVERY sync program and driver the coroutine performs the same DBAPI calls in the same order with the same "
+    "results/exceptions (trampoline_transparent), and for every block of the modelled alphabet the AsyncEngine/"
+    "AsyncConnection program equals the Engine/Connection program (api_transparent); (2) for every program, every "
+    "single cancellation position and both 'request took effect / did not' outcomes: nothing stays checked out, every "
+    "record handed out came back exactly once, every pooled connection is alive, NO connection is left in a "
+    "transaction, no garbage collection or warning is needed (block_safe), a never-closed connection is detached and "
+    "terminated by the collector (leak_safe), any sequence of tasks keeps the engine safe (tasks_safe) and a later "
+    "block completes (later_operations_work). Tie: source pin + correspondence on real cancellations at every "
+    "suspension."
 )
 LEVEL_NOTE = (
     "partial: only aiosqlite can run (asyncpg/psycopg/aiomysql are covered by the model's 'effect / no effect' "
-    "quantification only); Connection-level alphabet in the model (savepoints, engine.begin(), AsyncSession: "
-    "differential + cancellation oracle only); single cancellation per task in the safety theorem (double "
-    "cancellation is refuted separately); event-loop scheduling and the greenlet extension are trusted."
+    "quantification only, the no-effect case is emulated on aiosqlite by dropping the request); Connection-level "
+    "alphabet in the model (savepoints, engine.begin(), conn.begin() blocks, AsyncSession: differential + "
+    "cancellation oracle only); ONE cancellation per case in the safety theorems (a second cancellation inside "
+    "terminate() races with the shielded graceful close: known finding, outside the model); event-loop scheduling, "
+    "thread timing of aiosqlite and the greenlet extension are trusted. Found and fixed during the build: a "
+    "cancellation inside the pool's rollback-on-return lost the pool slot (/repo 51edfd0, 356c0aa)."
 )
 TECHNIQUE = "Coq proof over resumption trees (trampoline transparency + cancellation invariant) + real Task.cancel() at every suspension"
 ANCHORS = [
@@ -91,6 +102,7 @@ ANCHORS = [
     ("lib/sqlalchemy/ext/asyncio/engine.py", "AsyncConnection.__aexit__"),
     ("lib/sqlalchemy/ext/asyncio/engine.py", "AsyncTransaction.start"),
     ("lib/sqlalchemy/ext/asyncio/engine.py", "AsyncTransaction.__aexit__"),
+    ("lib/sqlalchemy/ext/asyncio/result.py", "_ensure_sync_result"),
     ("lib/sqlalchemy/ext/asyncio/session.py", "AsyncSession.__aexit__"),
     ("lib/sqlalchemy/ext/asyncio/session.py", "AsyncSession.close"),
 ]
@@ -170,7 +182,8 @@ def gen_cases(rng, tier):
         cases.append({"in": [1, ps, mo, blocks, []], "kind": "async-nocancel", "also_sync": sync_ok})
         n = _nsusp(bl, ps)
         for k in range(n + 1):
-            cases.append({"in": [1, ps, mo, blocks, [0] * k + [1]], "kind": "async-cancel"})
+            # 1: the cancelled request still takes effect (aiosqlite); 2: it never reached the driver
+            cases.append({"in": [1, ps, mo, blocks, [0] * k + [rng.choice([1, 1, 2])]], "kind": "async-cancel"})
         # double cancellation (second one anywhere in the following six suspensions)
         ndbl = 3 if thorough else (1 if len(cases) < 80 else 0)
         for _ in range(ndbl):
@@ -467,6 +480,9 @@ class _Stepper:
             k = ctl["n"]
             ctl["n"] += 1
             cancel = k < len(ctl["cs"]) and ctl["cs"][k] != 0
+            if cancel and ctl["cs"][k] == 2 and ctl.get("dropped") != k:
+                ctl["cs"][k] = 1  # not a droppable driver request: the cancellation finds it in effect
+            ctl.pop("dropped", None)
             if getattr(fut, "_c29_term", False):
                 label = 9
             elif getattr(fut, "_c29_shield", False):
@@ -569,6 +585,26 @@ def _patch_async(ctl_holder):
 
     shim.shield = shield
     casync.asyncio = shim
+
+    import aiosqlite.core as acore
+
+    orig_execute = acore.Connection._execute
+
+    def _noop():
+        return None
+
+    async def _execute(self, fn, *args, **kwargs):
+        # decision 2 ("cancelled before the request reached the driver"): the request of the suspension
+        # that is about to be cancelled is never queued on the connection thread
+        ctl = _PATCHED["holder"].get("ctl")
+        if ctl is not None:
+            k = ctl["n"]
+            if k < len(ctl["cs"]) and ctl["cs"][k] == 2 and asyncio.current_task() is ctl.get("task"):
+                ctl["dropped"] = k
+                return await orig_execute(self, _noop)  # same machinery, no database effect
+        return await orig_execute(self, fn, *args, **kwargs)
+
+    acore.Connection._execute = _execute
 
     import sqlalchemy.ext.asyncio.engine as aeng
     import sqlalchemy.ext.asyncio.session as asess
@@ -739,18 +775,21 @@ async def _run_async_blocks(ps, mo, blocks, cs):
     async def runner(sty, ops):
         return await _Stepper(block(sty, ops), ctl)
 
+    cs_eff = ctl["cs"]
     for bi, (sty, ops) in enumerate(blocks):
         if bi == len(blocks) - 1:
             ctl["cs"] = []  # the last block is the "later operations" probe: never cancelled
         with warnings.catch_warnings(record=True) as ws:
             warnings.simplefilter("always")
             task = asyncio.create_task(runner(sty, ops))
+            ctl["task"] = task
             out = 0
             try:
                 await task
             except BaseException as e:
                 out = _exc_code(e)
             task = None
+            ctl["task"] = None
             holder["ctl"] = None
             co1, co2, nw, nh = await _settle(pool)
             holder["ctl"] = ctl
@@ -774,6 +813,7 @@ async def _run_async_blocks(ps, mo, blocks, cs):
         "lockfree": _lockfree(path),
         "reset_cancel": ctl["reset_cancel"],
         "term_cancel": ctl["term_cancel"],
+        "cs": list(cs_eff),
     }
     await engine.dispose()
     await asyncio.sleep(0.002)
@@ -847,6 +887,10 @@ def impl(c):
 def model_pair(c, obs):
     if obs[0] == [99]:
         return c["in"], [99]
+    if obs[2] and "cs" in obs[2]:
+        # decisions as they took place (a "no effect" cancellation is only possible on a driver request)
+        c = dict(c)
+        c["in"] = c["in"][:4] + [obs[2]["cs"]]
     if obs[0][8] or (obs[2] and obs[2].get("term_cancel")):
         return c["in"], [77]  # pool-wide invalidation / cancelled inside terminate(): outside the model
     return c["in"], obs[0]
